@@ -67,7 +67,7 @@ pub fn generate(seed: u64, tier: Tier) -> Case {
                     for t in 0..rng.range(1, 2) {
                         let host = rng.below(p.modules.len());
                         let k = p.modules.len();
-                        let path = vec![format!("twin{k}_{t}")];
+                        let path = vec![format!("{}{k}_{t}", rng.pick(&["A", "a", "twin", "z"]))];
                         crate::project::add_twin_module(&mut p, host, path);
                     }
                 }
